@@ -1,13 +1,16 @@
 ---- MODULE RngModel ----
 \* Stub used only for syntax checking (setup.sh); the real module is generated on every run of ./check C17
 EXTENDS Integers, Sequences
-RM_Routines == <<"hutch_diag", "lobpcg">>
+RM_Routines == <<"hutch_diag", "lobpcg", "raw_randn">>
+RM_Ops == <<"base", "f32", "f64", "raw52f32">>
 RM_Keys == <<1, 2>>
 RM_Seeds == <<"s7">>
-RM_Disc == [r \in {"hutch_diag", "lobpcg"} |-> IF r = "lobpcg" THEN "global" ELSE "keyed"]
+RM_Disc == [r \in {"hutch_diag", "lobpcg", "raw_randn"} |-> IF r = "lobpcg" THEN "global" ELSE "keyed"]
 RM_RandnRestores == TRUE
-RM_Acts == <<[t |-> "draw"], [t |-> "seed", s |-> "s7"], [t |-> "call", r |-> "hutch_diag", k |-> 1]>>
-RM_MaxLen == 2
-RM_SampleMod == 1
-RM_SampleRes == 0
+RM_RandnStateless == TRUE
+RM_Acts == <<[t |-> "draw"], [t |-> "seed", s |-> "s7"], [t |-> "call", r |-> "hutch_diag", op |-> "base", k |-> 1],
+             [t |-> "call", r |-> "hutch_diag", op |-> "f32", k |-> 1], [t |-> "call", r |-> "hutch_diag", op |-> "f64", k |-> 1],
+             [t |-> "call", r |-> "raw_randn", op |-> "raw52f32", k |-> 1]>>
+RM_Modes == <<[name |-> "base", acts |-> <<1, 2, 3>>, maxlen |-> 2, mod |-> 1, res |-> 0],
+              [name |-> "variant:hutch_diag", acts |-> <<1, 4, 5, 6>>, maxlen |-> 2, mod |-> 1, res |-> 0]>>
 ====
